@@ -74,11 +74,15 @@ class Result:
         what: one line; replay: JSON-able dict from which check.replay() can re-execute the case."""
         k = sig_key(signature)
         v = self.violations.get(k)
+        rep = jsonable(replay)
+        size = len(json.dumps(rep, sort_keys=True))
         if v is None:
             self.violations[k] = {'signature': jsonable(signature), 'what': str(what),
-                                  'replay': jsonable(replay), 'count': 1}
+                                  'replay': rep, 'count': 1, 'size': size}
         else:
             v['count'] += 1
+            if size < v.get('size', 1 << 60):      # keep the smallest counterexample of the class
+                v.update(what=str(what), replay=rep, size=size)
 
     def error(self, text):
         if len(self.errors) < 20:
@@ -96,7 +100,11 @@ class Result:
                 self.samples.append(s)
         for k, v in o.violations.items():
             if k in self.violations:
-                self.violations[k]['count'] += v['count']
+                mine = self.violations[k]
+                mine['count'] += v['count']
+                a, b = v.get('size', 1 << 60), mine.get('size', 1 << 60)
+                if a < b or (a == b and json.dumps(v['replay'], sort_keys=True) < json.dumps(mine['replay'], sort_keys=True)):
+                    mine.update(what=v['what'], replay=v['replay'], size=a)
             else:
                 self.violations[k] = v
         self.witnesses.update(o.witnesses)
